@@ -1,9 +1,10 @@
 package main
 
 import (
-	"go/token"
 	"encoding/json"
 	"fmt"
+	"go/token"
+	"golang.org/x/tools/go/ssa"
 	"os"
 	"path/filepath"
 	"sort"
@@ -69,6 +70,54 @@ func (r *Run) unitsFor() []string {
 			continue
 		}
 		out = append(out, k)
+	}
+	if r.Prop == "all" || r.Only != "" {
+		return out
+	}
+	// A proof about the tagged functions uses the contracts of everything they call: those callees (through
+	// uncontracted helpers and through the implementations of interface methods, transitively) belong to the
+	// property's check as well, whatever their own tags say.
+	in := map[string]bool{}
+	for _, k := range out {
+		in[k] = true
+	}
+	var work []*ssa.Function
+	seen := map[*ssa.Function]bool{}
+	for _, k := range out {
+		if f := v.fnByKey[k]; f != nil {
+			work = append(work, f)
+		}
+	}
+	for len(work) > 0 {
+		f := work[0]
+		work = work[1:]
+		if seen[f] {
+			continue
+		}
+		seen[f] = true
+		for _, b := range f.Blocks {
+			for _, ins := range b.Instrs {
+				call, ok := ins.(ssa.CallInstruction)
+				if !ok {
+					continue
+				}
+				cc := call.Common()
+				var callees []*ssa.Function
+				if cc.IsInvoke() {
+					callees = v.eff.impl[ifaceKey(cc)]
+				} else if cf, ok := cc.Value.(*ssa.Function); ok && cf.Pkg == v.enc.pkg && cf.Blocks != nil {
+					callees = []*ssa.Function{cf}
+				}
+				for _, cf := range callees {
+					k := fnKey(cf)
+					if c := v.contracts.byKey[k]; c != nil && !c.IsIface && !in[k] {
+						in[k] = true
+						out = append(out, k)
+					}
+					work = append(work, cf)
+				}
+			}
+		}
 	}
 	return out
 }
